@@ -77,9 +77,18 @@ func classify(err error, sessionUp bool) int {
 	return 98
 }
 
+// fetcherLog: every other Fetcher logs at debug level (into nothing): what is logged, and how,
+// must not touch the data.
+func fetcherLog(r *lib.Rng) *slog.Logger {
+	if r.Intn(2) == 0 {
+		return slog.New(slog.NewTextHandler(io.Discard, &slog.HandlerOptions{Level: slog.LevelDebug}))
+	}
+	return slog.New(slog.DiscardHandler)
+}
+
 func newFetcher(r *lib.Rng) *ntske.Fetcher {
 	f := &ntske.Fetcher{}
-	f.Log = slog.New(slog.DiscardHandler)
+	f.Log = fetcherLog(r)
 	cfg := tls.Config{MinVersion: tls.VersionTLS13}
 	switch r.Intn(3) {
 	case 0: // as timeservice.go configures it
